@@ -14,6 +14,24 @@ CHECKS['C16'] = dict(
    text='theorems for all strings and all Unicode classifications: parse_simple and parse_inter never panic (the model keeps the usize-overflow and capacity-overflow sites; the proof needs the exponent cap), every accepted power is within the cap; the model is tied to the code by exhaustive agreement on all strings over the 15-symbol alphabet up to length 4 (thorough 5) plus mutated grammatical text with classified Unicode; acceptance-implies-fidelity is decided on the implementation by an independent recogniser of the documented grammars and a conventional arithmetic reader',
    note='Coq kernel, no axioms; extraction + OCaml driver; Rust harness; Python oracle; Unicode class table measured against Rust on every run',
    ref='DESIGN.md §5 C16')
+
+COMMON_NOTE = 'Coq 8.16.1 kernel (coqchk in the thorough tier); axioms as printed by Print Assumptions and allow-listed in tools/axioms_allow.txt (Reals: sig_forall_dec, sig_not_dec, functional_extensionality_dep, classic); extraction (ExtrOcamlBasic, ExtrOCamlFloats, ExtrOCamlInt63) + ocaml driver; Rust harness; exact-rational Python oracle; theorems are about the Gallina transcription in exact arithmetic, rounding is measured not proved'
+CHECKS['C01'] = dict(
+   technique='Coq proof (every rendering of the documented grammar is accepted with the stated coefficient vector; converse; evaluation = sum c_k x^k) + bit-for-bit differential correspondence of the extracted parser/evaluator against the Rust code + exact-rational oracle',
+   text='theorems for all strings: c01_accept (every string whose whitespace-stripped form is a rendering of the documented univariate grammar parses to dense_coeffs of its terms, for every arithmetic instance and Unicode classification), c01_dense_nth/length (like powers summed in source order, missing powers zero, coefficient k at position k), c01_eval_sum, c01_meaning (R: value of the string at every point), c01_spacing; model tied to the code by grammar-directed strings (all spellings, Unicode letters and whitespace) compared bit for bit',
+   note=COMMON_NOTE, ref='DESIGN.md §5 C01')
+CHECKS['C05'] = dict(
+   technique='Coq proof (Simpson 1/3+3/8 composite exact for cubics for every n>=2, trapezoid exact for linear, Romberg exact-if-Ok and never panics for every cap/tolerance on a panic-aware model; degree-4 error bound) + bit-for-bit correspondence + exact oracle for the error bound on degree 4..8',
+   text='14 theorems: exactness of definite_integral for every cubic, interval and n>=2 (even/odd/3) and of the one-segment trapezoid for linear integrands; Romberg returns the exact integral whenever it returns for degree<=3, converges for cap>=3, and never panics for ANY cap and tolerance and any arithmetic instance (checked table indices, checked power); the h^4/80 error bound proved for degree 4 (tight at n=3), oracle-checked for degree 5..8',
+   note=COMMON_NOTE + '; Simpson error bound for degree 5..8 is measured by the oracle only (c05_simpson_error_partial)', ref='DESIGN.md §5 C05')
+CHECKS['C14'] = dict(
+   technique='Coq proof of the full invariant (Q^T Q = I, Q H Q^T = A, zeros below the subdiagonal) through every Householder step of the functional-matrix model + bit-for-bit correspondence + exact-rational residual oracle',
+   text='8 theorems in exact arithmetic for every n and every real matrix: reflector facts (tau v^T v = 2, symmetric, involutive, maps x to +-|x| e1), one-step invariant preservation including the zero-norm skip, c14_main (orthogonal similarity to Hessenberg form), trace and Frobenius norm preserved, n<=2 unchanged, non-square rejected; float instance agrees bit for bit with the Rust code on dense/sparse/scaled/zero-subcolumn matrices up to 10x10',
+   note=COMMON_NOTE, ref='DESIGN.md §5 C14')
+CHECKS['C20'] = dict(
+   technique='Coq proof that both parsers are invariant under any re-spacing (all Unicode whitespace) and that the modelled expansion equals the runtime value under measured assumptions R1/R2 + compiler-in-the-loop differential check (generated crates expanded by rustc vs runtime parser vs extracted model)',
+   text='8 theorems: whitespace invariance of parse_simple/parse_inter, macro = runtime under R1 (token printer changes only whitespace) and R2 ({:?} floats read back exactly), error half, never-silently-different; each run builds crates with hundreds of invocations (5..600 chars, so the token printer wraps them) and compares every coefficient/exponent bit for bit, plus a crate of ungrammatical invocations checked through rustc JSON diagnostics; R1/R2 measured on every text',
+   note=COMMON_NOTE + '; R1/R2 are Section hypotheses measured at run time; rustc and cargo are in the loop', ref='DESIGN.md §5 C20')
 NOT_APPLICABLE = {}
 ALL = ['C%02d' % i for i in range(1, 21)]
 PENDING_REASON = 'not claimed yet in this revision: model/proof under construction (see DESIGN.md §9); no check is registered so nothing is asserted'
